@@ -25,6 +25,19 @@ CHECKS = {
         "assumptions": COMMON_ASSUME,
         "design_ref": "DESIGN.md §5 C02",
     },
+    "C03": {
+        "level": "exploration", "shards": 16, "deadline_quick": 110, "deadline_thorough": 1800,
+        "engine": "E-SEQ inputs through E-WORLD",
+        "technique": "bounded-exhaustive input enumeration: every <=k-field tampering of honestly signed messages (4 key types) x 4 signature policies x author / anonymous mode, each fed to a real node through the wire; independent re-implementation of the verification rule as oracle",
+        "rule": "cases = (policy, anonymous mode, base message: 4 key types x signed/unsigned) x (all tamperings touching <= k of the fields data, topic, from, seqno, key, signature, unknown bytes with ops drop / empty / flip / swap-from-another-signed-message / re-sign-with-foreign-key); "
+                "non-trivial = distinct case that reached the signature / policy decision (carries a signature, or is judged under a non-strict policy, or was accepted)",
+        "level_text": "all <=3-field (thorough: <=4-field) tamperings of eight base messages under the four policies crossed with author / anonymous mode are sent by a fake peer to a real node with a second subscriber; "
+                      "delivered-or-forwarded implies the independent oracle accepts; untampered admissible messages must be delivered; self-authored messages from others are dropped; "
+                      "the node's own publications (default / custom author, per-publish key, two key types each) verify under the same rule",
+        "level_note": "universal only over the tampering alphabet; raw byte fuzzing of the frame is C12's business",
+        "assumptions": ["go-libp2p crypto primitives (Sign/Verify, key (un)marshalling, peer ID derivation) are correct", "gogo-protobuf encodes fields in field-number order with unknown bytes appended"],
+        "design_ref": "DESIGN.md §5 C03",
+    },
     "C04": {
         "level": "model_checking", "shards": 16, "deadline_quick": 110, "deadline_thorough": 1800,
         "engine": "E-WORLD",
